@@ -71,6 +71,41 @@ def load_findings(pid):
     return [x for x in data.get("findings", []) if x["property"] == pid]
 
 
+def evidence_dir(partial=False):
+    """evidence/ is the record of the registered commands on the CURRENT tree.  Development runs that are not one of them
+    (a seeded change applied to /repo by harness/seedtest.sh, a `--only` subset) must not overwrite it: they write to the
+    directory named by VERIF_EVIDENCE_DIR, or to evidence/.partial/ (git-ignored)."""
+    d = os.environ.get("VERIF_EVIDENCE_DIR")
+    if d:
+        return d
+    if partial:
+        return os.path.join(HERE, "evidence", ".partial")
+    return os.path.join(HERE, "evidence")
+
+
+def validate_evidence(ev):
+    """-> None or a one-line reason.  The record must validate against the evidence schema; a proof-level record must have
+    every proof obligation discharged unless the run reports violations / undecided obligations (then the exit code is
+    non-zero anyway and the counts say why)."""
+    try:
+        import jsonschema
+        sp = os.path.join(HERE, "harness", "EVIDENCE.schema.json")
+        if not os.path.exists(sp):
+            sp = "/root/.vp/EVIDENCE.schema.json"
+        with open(sp) as f:
+            schema = json.load(f)
+        jsonschema.validate(json.loads(json.dumps(ev, default=repr)), schema)
+    except ImportError:
+        return None
+    except Exception as e:      # noqa
+        return str(e).splitlines()[0][:300]
+    c = ev["coverage"]
+    if ev["level"] == "proof" and c["discharged"] != c["obligations"] and not ev.get("violations") and not c.get("undecided"):
+        return "proof level: discharged (%d) != obligations (%d) although nothing was refuted or left undecided" % (
+            c["discharged"], c["obligations"])
+    return None
+
+
 def sanitize(s):
     return re.sub(r"[^A-Za-z0-9_.=-]", lambda m: "_" if m.group(0) in "/ :" else "~%02x" % ord(m.group(0)), s)[:180]
 
@@ -155,6 +190,7 @@ def main(argv=None):
     errors = []
     known_lines = {}
     tot_ob = tot_dis = 0
+    bnd_ob = bnd_dis = 0            # obligations of bounded stand-in targets: reported, never counted as proved
     functions = {}
     backends = {}
     solver_time = 0.0
@@ -176,6 +212,8 @@ def main(argv=None):
             diff_samples += r["diff"]["samples"]
         if r.get("kind") == "bounded":
             bounded_targets += 1
+            bnd_ob += r.get("obligations", 0)
+            bnd_dis += r.get("discharged", 0)
         for s in r.get("samples", [])[:1]:
             if len(samples) < 8:
                 samples.append(s)
@@ -235,8 +273,18 @@ def main(argv=None):
     # ---- evidence ----------------------------------------------------------------------------------------
     level = meta["level"]
     fdesc = dict((f["id"], f) for f in findings)
+    # A proof-level record counts only the obligations of unbounded (kind=proof) targets under obligations/discharged;
+    # the bounded stand-ins of the same property are listed next to them under bounded_*.
+    proof_only = level == "proof"
     cov = {
-        "obligations": tot_ob, "discharged": tot_dis,
+        "obligations": tot_ob - bnd_ob if proof_only else tot_ob,
+        "discharged": tot_dis - bnd_dis if proof_only else tot_dis,
+        "bounded_obligations": bnd_ob, "bounded_discharged": bnd_dis,
+        "all_obligations": tot_ob, "all_discharged": tot_dis,
+        "counting_rule": ("obligations/discharged = solver obligations of the unbounded targets only; bounded stand-ins are "
+                          "counted under bounded_obligations/bounded_discharged and are not proof") if proof_only else
+                         ("obligations/discharged = all obligations of this run (bounded and unbounded targets; see "
+                          "per_target.kind and bounded_obligations)"),
         "checker_cmd": "./check %s --tier %s" % (pid, tier),
         "trusted_base": meta.get("trusted_base", []),
         "explanation": meta.get("explanation", ""),
@@ -277,9 +325,13 @@ def main(argv=None):
     ev = {"property_id": pid, "tier": tier, "seed": _SEED, "level": level, "coverage": cov,
           "assumptions": meta.get("assumptions", []), "wall_s": round(time.time() - t0, 2),
           "violations": len(violations)}
-    os.makedirs(os.path.join(HERE, "evidence"), exist_ok=True)
-    with open(os.path.join(HERE, "evidence", pid + ".json"), "w") as f:
+    ev_err = validate_evidence(ev)
+    evdir = evidence_dir(partial=bool(args.only))
+    os.makedirs(evdir, exist_ok=True)
+    with open(os.path.join(evdir, pid + ".json"), "w") as f:
         json.dump(ev, f, indent=1, default=repr)
+    if ev_err:
+        errors.append((pid + "/evidence", "evidence record is not valid for its level: " + ev_err))
 
     if args.write_lock and not violations and not errors:
         lock[pid] = dict((r["id"], r.get("obligations", 0)) for r in results if not r.get("refuted")
@@ -288,8 +340,9 @@ def main(argv=None):
             json.dump(lock, f, indent=0, sort_keys=True)
 
     # ---- report ------------------------------------------------------------------------------------------
-    print("%s %s: %d targets, %d obligations, %d discharged, %d violations, %d undecided, %.1fs (solver %.1fs)" % (
-        pid, tier, len(targets), tot_ob, tot_dis, len(violations), len(undecided), time.time() - t0, solver_time))
+    print("%s %s: %d targets, %d obligations, %d discharged (of which bounded stand-ins: %d/%d), %d violations, %d undecided, "
+          "%.1fs (solver %.1fs)" % (pid, tier, len(targets), tot_ob, tot_dis, bnd_dis, bnd_ob, len(violations), len(undecided),
+                                    time.time() - t0, solver_time))
     for fid, k in sorted(known_lines.items()):
         f = fdesc.get(fid, {})
         print("KNOWN-FINDING: property=%s %s [%s; witness %s]" % (pid, f.get("what", fid), fid, json.dumps(k.get("model"))[:200]))
